@@ -20,8 +20,26 @@ def fresh_table(n, hashseed):
 
 
 def _seq_worker(seq):
-    from .. import session
-    return session.run_seq(seq)
+    """runs one history in a freshly forked grandchild: the pool worker itself never calls prtpy, so every history starts from the pristine imported state"""
+    import os, json as _json
+    r, w = os.pipe()
+    pid = os.fork()
+    if pid == 0:
+        try:
+            os.close(r)
+            from .. import session
+            data = _json.dumps(session.run_seq(seq)).encode()
+            with os.fdopen(w, "wb") as f:
+                f.write(data)
+        finally:
+            os._exit(0)
+    os.close(w)
+    with os.fdopen(r, "rb") as f:
+        data = f.read()
+    os.waitpid(pid, 0)
+    if not data:
+        raise core.Machinery("history %s: the forked interpreter died without an answer" % (seq,))
+    return _json.loads(data.decode())
 
 
 def run(ck):
@@ -46,8 +64,8 @@ def run(ck):
     seqs += longs
     # each history runs in its own freshly forked process; the parent has only IMPORTED prtpy (module initialisation), never called it
     from .. import drive  # noqa
-    with mp.get_context("fork").Pool(16, maxtasksperchild=1) as pool:
-        evs = pool.map(_seq_worker, seqs, chunksize=1)
+    with mp.get_context("fork").Pool(16) as pool:
+        evs = pool.map(_seq_worker, seqs, chunksize=8)
     traces = []
     for seq, ev in zip(seqs, evs):
         for e in ev:
